@@ -104,6 +104,7 @@ type g16world struct {
 type g16variant struct {
 	connectJoins   bool // on connect joins the path room
 	connectHello   bool
+	connectCloses  bool
 	disconnectKind int  // 0 broadcast+leave, 1 joins a room (must have no effect), 2 sends to itself, 3 nothing, 4 joins+broadcasts
 	lobbyRoute     bool
 }
@@ -123,6 +124,11 @@ func g16source(v g16variant) string {
 	b.WriteString("@ GET /stats {\n  > {n: ws.get_connection_count(), up: ws.get_uptime() >= 0}\n}\n\n")
 	b.WriteString("@ GET /members/:room {\n  > {room: room, users: ws.get_room_clients(room)}\n}\n\n")
 	b.WriteString("@ ws /room/:room {\n  on connect {\n")
+	if v.connectCloses {
+		// the connect handler turns some clients away at once (it runs on the hub, while the
+		// connection is being registered)
+		b.WriteString("    if room == \"r2\" {\n      ws.close(\"not here\")\n    }\n")
+	}
 	if v.connectJoins {
 		b.WriteString("    ws.join(room)\n")
 	}
@@ -284,6 +290,7 @@ func c16gRun(s *sim.Sim, p *sim.Params) {
 		connectJoins:   s.Choose(sim.SWork, 5) != 0,
 		disconnectKind: s.Choose(sim.SWork, 5),
 		lobbyRoute:     s.Choose(sim.SWork, 2) == 0,
+		connectCloses:  s.Choose(sim.SWork, 4) == 0,
 	}
 	w := &g16world{s: s, gone: map[string]uint64{}, memb: map[string][]g16memb{}, bcasts: map[string]*g16bcast{}, variant: v}
 	defer func() { s.Note("sample", w.sample) }()
